@@ -1153,10 +1153,38 @@ func unreadableValuesRefused(x *Ctx) {
 						}
 					}
 					if ia, ok := u.X.(*ssa.IndexAddr); ok {
-						if u3, ok := ia.X.(*ssa.UnOp); ok {
-							if fa, ok := u3.X.(*ssa.FieldAddr); ok && fieldNameOf(fa) == "proof" {
-								okP = true
+						// the list indexed is t.proof, or the parameter of a new helper that is handed t.proof
+						var isProof func(v ssa.Value, depth int) bool
+						isProof = func(v ssa.Value, depth int) bool {
+							switch t := v.(type) {
+							case *ssa.UnOp:
+								fa, ok := t.X.(*ssa.FieldAddr)
+								return ok && fieldNameOf(fa) == "proof"
+							case *ssa.Parameter:
+								g := t.Parent()
+								if depth > 3 || !scope[g] || g == f {
+									return false
+								}
+								idx := -1
+								for i, prm := range g.Params {
+									if prm == t {
+										idx = i
+									}
+								}
+								for _, b3 := range blocks {
+									for _, in3 := range b3.Instrs {
+										if c3, ok := in3.(ssa.CallInstruction); ok && c3.Common().StaticCallee() == g && idx >= 0 && idx < len(c3.Common().Args) {
+											if isProof(c3.Common().Args[idx], depth+1) {
+												return true
+											}
+										}
+									}
+								}
 							}
+							return false
+						}
+						if isProof(ia.X, 0) {
+							okP = true
 						}
 					}
 				}
